@@ -414,6 +414,53 @@ func c06NewSparse(N int) {
 		}
 	}
 	vgAgree(g, adj, "NewSparse after the caller modified its lists")
+	// the constructed graph is an ordinary editable graph: one edit of it (the lists it was
+	// built from must not share capacity with each other)
+	if n >= 1 {
+		model := vgCopyAdj(adj)
+		switch rt.Choice("edit", 3) {
+		case 0:
+			u, v := rt.Choice("u", n), rt.Choice("v", n)
+			g.AddEdge(u, v)
+			if u != v {
+				model[u][v], model[v][u] = true, true
+			}
+		case 1:
+			var nbrs []int
+			grown := make([][]bool, n+1)
+			for i := range grown {
+				grown[i] = make([]bool, n+1)
+				if i < n {
+					copy(grown[i], model[i])
+				}
+			}
+			for u := 0; u < n; u++ {
+				if rt.Choice("nb", 2) == 1 {
+					nbrs = append(nbrs, u)
+					grown[u][n], grown[n][u] = true, true
+				}
+			}
+			g.AddVertex(nbrs)
+			model = grown
+		default:
+			u, v := rt.Choice("u", n), rt.Choice("v", n)
+			if u != v {
+				// SplitEdge on an edge or a non-edge: a new vertex joined to both ends
+				SplitEdge(g, u, v)
+				grown := make([][]bool, n+1)
+				for i := range grown {
+					grown[i] = make([]bool, n+1)
+					if i < n {
+						copy(grown[i], model[i])
+					}
+				}
+				grown[u][v], grown[v][u] = false, false
+				grown[u][n], grown[n][u], grown[v][n], grown[n][v] = true, true, true, true
+				model = grown
+			}
+		}
+		vgAgree(g, model, "NewSparse followed by an edit")
+	}
 	g2 := NewSparse(n, nil)
 	c06Def(g2, n, func(i, j int) bool { return false }, "NewSparse(nil)")
 	rt.Reach("end")
